@@ -288,6 +288,7 @@ func (d *Data) handleSyncMessage(ctx *datastore.VersionedCtx, msg datastore.Sync
 	case labelmap.IngestedBlock:
 		chunkPt, _ := delta.BCoord.ToChunkPoint3d()
 		data, _ := delta.Data.MakeLabelVolume()
+		d.mapSupervoxels(msg.Version, data)
 		d.ingestBlock(ctx, chunkPt, data, batcher)
 		mutID = delta.MutID
 
@@ -302,6 +303,8 @@ func (d *Data) handleSyncMessage(ctx *datastore.VersionedCtx, msg datastore.Sync
 		chunkPt, _ := delta.BCoord.ToChunkPoint3d()
 		prev, _ := delta.Prev.MakeLabelVolume()
 		data, _ := delta.Data.MakeLabelVolume()
+		d.mapSupervoxels(msg.Version, prev)
+		d.mapSupervoxels(msg.Version, data)
 		d.mutateBlock(ctx, delta.MutID, chunkPt, prev, data, batcher)
 		mutID = delta.MutID
 
@@ -361,6 +364,43 @@ func (d *Data) handleSyncMessage(ctx *datastore.VersionedCtx, msg datastore.Sync
 			activity["mutation_id"] = mutID
 		}
 		storage.LogActivityToKafka(activity)
+	}
+}
+
+// labelmap block events carry supervoxel ids while the label denormalizations are kept per
+// (mapped) body label, so convert a packed uint64 volume in place to the labels of the given version.
+func (d *Data) mapSupervoxels(v dvid.VersionID, data []byte) {
+	mapper, ok := d.getSyncedLabels().(interface {
+		GetMappedLabels(dvid.VersionID, []uint64) ([]uint64, []bool, error)
+	})
+	if !ok {
+		return
+	}
+	var supervoxels []uint64
+	pos := make(map[uint64]int)
+	for i := 0; i+8 <= len(data); i += 8 {
+		sv := binary.LittleEndian.Uint64(data[i : i+8])
+		if _, found := pos[sv]; !found && sv != 0 {
+			pos[sv] = len(supervoxels)
+			supervoxels = append(supervoxels, sv)
+		}
+	}
+	mapped, found, err := mapper.GetMappedLabels(v, supervoxels)
+	if err != nil {
+		dvid.Errorf("unable to map supervoxels to labels during sync of annotation %q: %v\n", d.DataName(), err)
+		return
+	}
+	anyMapped := false
+	for _, wasMapped := range found {
+		anyMapped = anyMapped || wasMapped
+	}
+	if !anyMapped {
+		return
+	}
+	for i := 0; i+8 <= len(data); i += 8 {
+		if sv := binary.LittleEndian.Uint64(data[i : i+8]); sv != 0 {
+			binary.LittleEndian.PutUint64(data[i:i+8], mapped[pos[sv]])
+		}
 	}
 }
 
